@@ -126,6 +126,18 @@ def check_lp(arr, names, mat, model, nsp, what, errs):
                 errs.append((f"{what}:default-extra", f"{nm}: {arr[nm]!r} vs {dv}"))
 
 
+def selections(names):
+    import itertools
+
+    names = list(names)
+    d = len(names)
+    if d <= 3:
+        out = [p for k in range(1, d + 1) for p in itertools.permutations(names, k)]
+    else:
+        out = [tuple(names), tuple(reversed(names)), tuple(names[1:] + names[:1]), (names[-1],), (names[-1], names[0]), tuple(names[::-2]), tuple(names[1::2])]
+    return out
+
+
 def lattice(model, quick):
     """Evaluate every conversion in the current registry state.  Returns (n_cases, errs)."""
     import pandas as pd
@@ -163,6 +175,33 @@ def lattice(model, quick):
                             errs.append((f"live_points_to_array[{tag}]:values", ""))
                         if back is not None and back.shape != (n, d):
                             errs.append((f"live_points_to_array[{tag}]:shape", f"{back.shape}"))
+                    if a is not None and (shift == 0 or d <= 3):
+                        # every selection of names: all ordered subsets for d <= 3, a structured
+                        # family (reversed, rotated, last only, last+first, every other) above
+                        for sel in selections(names):
+                            cols = [names.index(s_) for s_ in sel]
+                            for cp in (False, True):
+                                ncases += 1
+                                w = f"live_points_to_array[names={'perm' if len(sel) == d else 'subset'},copy={cp},{tag}]"
+                                back = guard(w, lambda: lp.live_points_to_array(a, list(sel), copy=cp))
+                                if back is None:
+                                    continue
+                                if back.shape != (n, len(sel)):
+                                    errs.append((f"{w}:shape", f"{back.shape} vs {(n, len(sel))} for names {sel} of {names}"))
+                                elif n > 0 and bits(back) != bits(mat[:, cols]):
+                                    errs.append((f"{w}:values-not-in-the-requested-order", f"names {sel} of {names}"))
+                            sub = guard("live_points_to_dict[selection]", lambda: lp.live_points_to_dict(a, list(sel)))
+                            if sub is not None:
+                                if list(sub.keys()) != list(sel):
+                                    errs.append(("live_points_to_dict[selection]:key-order", f"{list(sub.keys())} vs {sel}"))
+                                elif any(bits(sub[s_]) != bits(mat[:, c]) for s_, c in zip(sel, cols)):
+                                    errs.append(("live_points_to_dict[selection]:values", f"{sel}"))
+                        try:
+                            r_ = lp.live_points_to_array(a, list(names) + ["not_a_field_"])
+                            if r_.shape[-1] != d + 1:
+                                errs.append(("live_points_to_array[unknown-name]:silently-dropped", f"{r_.shape}"))
+                        except Exception:
+                            pass
                     if n == 1:
                         a1 = guard("numpy_array_to_live_points[1d]", lambda: lp.numpy_array_to_live_points(mat[0].copy(), names, non_sampling_parameters=nsp))
                         if a1 is not None:
@@ -359,7 +398,10 @@ def expand(item):
 def run(ctx):
     depth = 3 if ctx.quick else 5
     key, n, errs = run_history([], ctx.quick)
-    for name, detail in errs[:1]:
+    firsts = {}
+    for name, detail in errs:
+        firsts.setdefault(name, detail)
+    for name, detail in list(firsts.items())[:4]:
         ctx.violation(name, f"{name} {detail} in the initial registry state", {"hist": []})
     r = explore.bfs(ctx, [(key, [])], expand, depth, chunk=1, extra=ctx.quick)
     ncases = n + sum(t[1] for t in r["outcomes"])
